@@ -72,6 +72,7 @@ LEVEL_NOTE = ("Trusted: Lean kernel, harness + watchdog, the python framing pars
               "coding is `chunked`, ASCII case-insensitively (fix 7dcf721; String::toLowerCase is UTF-8 aware, the model ASCII: values "
               "with bytes >= 0x80 are not generated); a request with a Transfer-Encoding whose last coding is not chunked (gzip, `chunked, gzip`, xchunked, empty) is "
               "dropped, the connection closed (4dff910, theorem dispatch_requires_framed_transfer_encoding); gzip/deflate codings before chunked are not decoded. "
+              "A header line whose name is empty or holds a blank/tab/control character (`Content-Length : 5`) ends the block like a line without colon, the connection is closed (9bf376e). "
               "Repeated header fields keep the last value (single-valued Dic interface; outside_findings.txt): the oracle gives no opinion on streams that repeat Content-Length/Transfer-Encoding. Folded header lines are joined to the "
               "field value with one space (350c8ee) and received empty values are kept (988a64d); query tokens without `=` are "
               "dropped by Url::parseQuery by design (outside_findings.txt). Chunk framing is validated (4dbedbe, d0ace7d): size lines are 1-8 hex digits (<= 0x7fffffff) + blanks/;ext, each chunk must "
@@ -457,6 +458,18 @@ def gen(rng, tier):
             for body in [smug, b"5\r\nhello\r\n0\r\n\r\n" + smug]:
                 x = (b"POST /te HTTP/1.1\r\nHost: h\r\nTransfer-Encoding: " + te + b"\r\n"
                      + (b"Content-Length: " + cl + b"\r\n" if cl is not None else b"") + b"\r\n" + body)
+                c.append("srv " + hexs(x))
+                c.append("req " + hexs(x))
+                st["req_mutated"] += 1
+                st["srv_streams"] += 1
+    # white space (or a control character) between a field name and the colon, an empty name: the framing headers must not be
+    # missed - the request is not dispatched and its body bytes do not run as a request
+    for nm in [b"Content-Length ", b"Content-Length\t", b"Content-Length  ", b"Content-Length\x0b", b"Content-Length\x0c", b"Content-Length\r",
+               b"Content-Length\x7f", b"Content-Length\x01", b"Content Length", b"Content-\tLength", b"content-length ", b"Transfer-Encoding ",
+               b"Transfer-Encoding\t", b"", b"X-Other ", b"Host\t", b"X Y"]:
+        for val, body in [(b"5", b"hello" + smug), (b"chunked", b"5\r\nhello\r\n0\r\n\r\n" + smug)]:
+            for first in (b"Host: x\r\n", b""):
+                x = b"POST /ws HTTP/1.1\r\n" + first + nm + b": " + val + b"\r\n\r\n" + body
                 c.append("srv " + hexs(x))
                 c.append("req " + hexs(x))
                 st["req_mutated"] += 1
@@ -969,6 +982,10 @@ def _frame(s):
         c = t.find(b":")
         if c < 0:
             return "incomplete"      # a line that is neither a field nor the empty line: the block is not complete
+        if c == 0 or any(ch <= 0x20 or ch == 0x7f for ch in t[:c]):
+            # a field name is a token; white space between the name and the colon must be rejected by a server
+            # (RFC 7230 3.2.4: it hides Content-Length / Transfer-Encoding from one of two parsers): nothing may be dispatched
+            return "incomplete"
         fields.append((t[:c], t[c + 1:].strip(b" \t\r\n")))
     names = [_capital(n) for n, _ in fields]
     simple = len(set(names)) == len(names)
